@@ -505,6 +505,87 @@ Proof.
     intros d a. cbv zeta. cbn [set_bank w_bank]. apply Hb.
 Qed.
 
+(* ---------- the allowance-spending cw20 entry points (TransferFrom / SendFrom / BurnFrom) and
+   DecreaseAllowance ---------- *)
+Lemma tok_transfer_from_full t sp ow to n t' : tok_transfer_from t sp ow to n = Ok t' ->
+  exists al, t_allow t ow sp = Some al /\ n <= al /\ n <= t_bal t ow /\
+  t_supply t' = t_supply t /\ t_minter t' = t_minter t /\ t_decimals t' = t_decimals t /\
+  (forall o s, t_allow t' o s = if (o =? ow) && (s =? sp) then Some (al - n) else t_allow t o s) /\
+  (forall a, t_bal t' a =
+     if ow =? to then t_bal t a
+     else if a =? ow then t_bal t a - n else if a =? to then t_bal t a + n else t_bal t a).
+Proof.
+  unfold tok_transfer_from. destruct (t_allow t ow sp) as [al|] eqn:Ea; [|discriminate].
+  destruct (n <=? al) eqn:E0; [|discriminate]. apply N.leb_le in E0. cbv zeta.
+  unfold tok_debit. cbn [t_bal t_allow t_supply t_minter t_decimals].
+  destruct (n <=? t_bal t ow) eqn:E1; [|discriminate]. apply N.leb_le in E1.
+  cbn [bind]. unfold tok_credit. cbn [t_bal t_allow t_supply t_minter t_decimals].
+  destruct (_ <? W128) eqn:E2; [|discriminate].
+  intros H. inversion H. subst t'. clear H. cbn [t_bal t_allow t_supply t_minter t_decimals].
+  exists al. repeat split; try assumption; try reflexivity.
+  intros a. unfold upd.
+  destruct (ow =? to) eqn:Eot.
+  - apply N.eqb_eq in Eot. subst to. rewrite N.eqb_refl.
+    destruct (a =? ow) eqn:Ea'; [|reflexivity]. apply N.eqb_eq in Ea'. subst a. lia.
+  - destruct (a =? ow) eqn:Ea'.
+    + apply N.eqb_eq in Ea'. subst a. rewrite Eot. reflexivity.
+    + destruct (a =? to) eqn:Eat; [|reflexivity]. apply N.eqb_eq in Eat. subst a. rewrite Ea'. reflexivity.
+Qed.
+
+Lemma tok_burn_from_effect t sp ow n t' : tok_burn_from t sp ow n = Ok t' ->
+  exists al, t_allow t ow sp = Some al /\ n <= al /\ n <= t_bal t ow /\ n <= t_supply t /\
+  t_supply t' = t_supply t - n /\ t_minter t' = t_minter t /\ t_decimals t' = t_decimals t /\
+  (forall o s, t_allow t' o s = if (o =? ow) && (s =? sp) then Some (al - n) else t_allow t o s) /\
+  (forall a, t_bal t' a = if a =? ow then t_bal t a - n else t_bal t a).
+Proof.
+  unfold tok_burn_from. destruct (t_allow t ow sp) as [al|] eqn:Ea; [|discriminate].
+  destruct (n <=? al) eqn:E0; [|discriminate]. apply N.leb_le in E0. cbv zeta.
+  unfold tok_debit. cbn [t_bal t_allow t_supply t_minter t_decimals].
+  destruct (n <=? t_bal t ow) eqn:E1; [|discriminate]. apply N.leb_le in E1.
+  cbn [bind t_bal t_allow t_supply t_minter t_decimals].
+  destruct (n <=? t_supply t) eqn:E2; [|discriminate]. apply N.leb_le in E2.
+  intros H. inversion H. subst t'. clear H. cbn [t_bal t_allow t_supply t_minter t_decimals].
+  exists al. repeat split; try assumption; try reflexivity.
+  intros a. unfold upd. destruct (a =? ow) eqn:Ea'; [apply N.eqb_eq in Ea'; subst a|]; reflexivity.
+Qed.
+
+Lemma tok_decrease_allowance_effect t ow sp n t' : tok_decrease_allowance t ow sp n = Ok t' ->
+  sp <> ow /\ exists al, t_allow t ow sp = Some al /\
+  t_bal t' = t_bal t /\ t_supply t' = t_supply t /\ t_minter t' = t_minter t /\ t_decimals t' = t_decimals t /\
+  (forall o s, t_allow t' o s =
+     if (o =? ow) && (s =? sp) then (if n <? al then Some (al - n) else None) else t_allow t o s).
+Proof.
+  unfold tok_decrease_allowance. destruct (sp =? ow) eqn:E; [discriminate|]. apply N.eqb_neq in E.
+  destruct (t_allow t ow sp) as [al|] eqn:Ea; [|discriminate].
+  intros H. inversion H. subst t'. clear H. cbn [t_bal t_allow t_supply t_minter t_decimals].
+  split; [exact E|]. exists al. repeat split; reflexivity.
+Qed.
+
+(* what Send and SendFrom share: the Receive dispatch on the target after the ledger part *)
+Definition cw20_dispatch (w1 : world) (ta sender target : addr) (amount : N) (h : hook) : res world :=
+  match w_pairs w1 target with
+  | Some ps => pair_receive w1 target ps ta [] sender amount h
+  | None =>
+      if target =? w_rtr w1 then
+        match h with
+        | HRouterOps ops m to => router_exec_ops w1 sender ops m to
+        | _ => Err EStd
+        end
+      else Err EStd
+  end.
+Lemma cw20_send_dispatch w ta sender target amount h :
+  cw20_send w ta sender target amount h =
+  (let* w1 := with_token w ta (fun t => tok_transfer t sender target amount) in cw20_dispatch w1 ta sender target amount h).
+Proof. reflexivity. Qed.
+Lemma cw20_send_from_dispatch w ta sp ow target amount h :
+  cw20_send_from w ta sp ow target amount h =
+  (let* w1 := with_token w ta (fun t => tok_transfer_from t sp ow target amount) in cw20_dispatch w1 ta sp target amount h).
+Proof. reflexivity. Qed.
+Lemma cw20_send_from_inv w ta sp ow target amount h w' : cw20_send_from w ta sp ow target amount h = Ok w' ->
+  exists w1, with_token w ta (fun t => tok_transfer_from t sp ow target amount) = Ok w1 /\
+             cw20_dispatch w1 ta sp target amount h = Ok w'.
+Proof. rewrite cw20_send_from_dispatch. intros H. apply bind_ok in H. exact H. Qed.
+
 Print Assumptions pay_asset_effect.
 Print Assumptions pair_swap_settlement.
 Print Assumptions exec_swap_decompose.
